@@ -559,7 +559,7 @@ fn run(ctx: &Ctx) -> Report {
         rep.inconclusive = Some("libmla.so missing".into());
         return rep;
     }
-    let total = ctx.n(2_000, 200_000) as usize;
+    let total = ctx.n(2_000, 60_000) as usize;
     let workers = ctx.threads.max(1);
     let per = total.div_ceil(workers);
     run::workers_collect(&mut rep, ctx, "c-interface", "c20", workers, &[per.to_string()]);
